@@ -1,7 +1,8 @@
 SPECIFICATION Spec
 CONSTANTS MaxHist = 3
-  CfgIds = {1, 2, 3, 4}
+  CfgIds = {1}
   DeepCfgIds = {1}
   StmtAct = FALSE
+  LibIds <- DeepLibIds
 INVARIANTS TypeOK ResetRestores Laws
 PROPERTY Untouched
